@@ -16,7 +16,7 @@ META = dict(
     bounds=dict(
         quick="hosts: all graphs (connected or not) on <=4 nodes; patterns: all graphs on <=3 nodes (4-node hosts with >=4 bonds only against patterns without bonds or with <=2 nodes); element in {C,N}, "
               "hcount in {0,1}, bond order in {1,2}, charge in {0,1} on the 3-node hosts; strategies all/comp/bt, "
-              "strict_cc_count on/off, max_results in {1,2}, threshold in {0,1,2}, pre_filter on/off — all on the "
+              "strict_cc_count on/off; two different hosts on the same node ids searched one after the other; max_results in {1,2}, threshold in {0,1,2}, pre_filter on/off — all on the "
               "same symbolic pair",
         thorough="hosts up to 5 nodes (<=5 edges), patterns up to 3 nodes, charge symbolic everywhere, hcount in {0,1,2}",
     ),
@@ -145,11 +145,66 @@ def h_search(E, hn, hedges, pn, pedges, charges, hmax, limits):
     E.observe((sorted(r_all), sorted(r_comp), sorted(r_bt)))
 
 
-HARNESSES = {"search": h_search}
+def h_history(E, n, edges_a, edges_b, pn, pedges):
+    """two different hosts on the same node ids are searched one after the other in one process: the second answer must
+    be the exact set for the second host (nothing may be carried over from the first call)."""
+    from synkit.Graph.Matcher.subgraph_matcher import SubgraphSearchEngine as SE
+
+    ha, _ = sym_mol(E, "A", n, [tuple(e) for e in edges_a], elements=("C",), hcounts=(0,), charges=(0,), orders=(1,))
+    hb, _ = sym_mol(E, "B", n, [tuple(e) for e in edges_b], elements=("C", "N"), hcounts=(0,), charges=(0,), orders=(1, 2))
+    pat, _ = sym_mol(E, "P", pn, [tuple(e) for e in pedges], elements=("C", "N"), hcounts=(0,), charges=(0,), orders=(1, 2),
+                     node_ids=[11 + i for i in range(pn)])
+    info = dict(first=edges_a, second=edges_b, pattern=pedges)
+    for strategy in ("comp", "all", "bt"):
+        SE.find_subgraph_mappings(ha, pat, node_attrs=NA, edge_attrs=EA, strategy=strategy, strict_cc_count=False)
+        res = SE.find_subgraph_mappings(hb, pat, node_attrs=NA, edge_attrs=EA, strategy=strategy, strict_cc_count=False)
+        keys = [tuple(sorted(m.items())) for m in res]
+        valid = {tuple(sorted(f.items())): valid_formula(hb, pat, f) for f in injections(list(pat.nodes), list(hb.nodes))}
+        hci, pci = comp_index(hb), comp_index(pat)
+
+        def distinct(key):
+            seen = {}
+            for p, h in dict(key).items():
+                if seen.setdefault(hci[h], pci[p]) != pci[p]:
+                    return False
+            return True
+
+        if strategy == "all" or len(set(hci.values())) < len(set(pci.values())):
+            want = valid
+        else:
+            want = {k: (f if distinct(k) else False) for k, f in valid.items()}
+        bad = [len(keys) != len(set(keys)), any(k not in valid for k in keys)]
+        ks = set(keys)
+        for k, f in want.items():
+            bad.append(NOT(f) if k in ks else f)
+        if strategy == "bt":
+            any_comp = OR(list(want.values()))
+            bad_all = [len(keys) != len(set(keys))] + [NOT(f) if k in ks else f for k, f in valid.items()]
+            E.check(OR(AND(any_comp, OR(bad)), AND(NOT(any_comp), OR(bad_all))), "second-search-depends-on-the-first",
+                    dict(info, strategy=strategy, got=keys))
+        else:
+            E.check(OR(bad), "second-search-depends-on-the-first", dict(info, strategy=strategy, got=keys))
+    E.note(nontrivial=True)
+    E.observe(None)
+
+
+HARNESSES = {"search": h_search, "history": h_history}
+
+
+HISTORY_PAIRS = [
+    (4, [[1, 2], [3, 4]], [[1, 3], [2, 4]]),
+    (4, [[1, 2], [3, 4]], [[1, 4], [2, 3]]),
+    (4, [[1, 2], [2, 3], [3, 4]], [[1, 3], [3, 2], [2, 4]]),
+    (3, [[1, 2]], [[1, 3]]),
+    (4, [[1, 2], [2, 3]], [[1, 2], [3, 4]]),
+]
 
 
 def shards(tier, seed):
     sh = []
+    for n, ea, eb in HISTORY_PAIRS:
+        for pn, pe in ((2, [[1, 2]]), (2, []), (3, [[1, 2]])):
+            sh.append(dict(h="history", params=dict(n=n, edges_a=ea, edges_b=eb, pn=pn, pedges=pe)))
     if tier == "quick":
         hosts = [(n, es) for n in (2, 3, 4) for es in all_shapes(n)]
         pats = [(n, es) for n in (1, 2, 3) for es in all_shapes(n)]
